@@ -20,6 +20,7 @@ macro_rules! dispatch {
             "limits" => $f::<engines::limits::Limits>($($args),*),
             "reject" => $f::<engines::reject::Reject>($($args),*),
             "cursor" => $f::<engines::cursor::Cursor>($($args),*),
+            "chaos" => $f::<engines::chaos::Chaos>($($args),*),
             "bitshare" => $f::<engines::bitshare::Bitshare>($($args),*),
             "clones" => $f::<engines::clones::Clones>($($args),*),
             other => {
@@ -30,7 +31,7 @@ macro_rules! dispatch {
     };
 }
 
-const ENGINES: &[&str] = &["drive", "reverse", "limits", "reject", "bitshare", "clones", "cursor"];
+const ENGINES: &[&str] = &["drive", "reverse", "limits", "reject", "bitshare", "clones", "cursor", "chaos"];
 
 fn info_of<E: Engine>() -> EngineInfo {
     EngineInfo { name: E::NAME, prop: E::PROP, rule: E::RULE, real: E::REAL, stub: E::STUB }
@@ -45,6 +46,10 @@ fn plan_for(prop: &str, tier: Tier) -> Vec<(&'static str, u64, &'static str)> {
     let q = tier == Tier::Quick;
     let v: Vec<(&'static str, u64)> = match prop {
         // run in both build profiles: overflow-checked arithmetic panics where release wraps
+        "C08" => {
+            let n = if q { 60_000 } else { 10_000_000 };
+            return vec![("chaos", n, "release"), ("chaos", n, "checked")];
+        }
         "C06" => {
             let n = if q { 60_000 } else { 6_000_000 };
             return vec![("cursor", n, "release"), ("cursor", n, "checked")];
